@@ -569,6 +569,21 @@ def _retype_strs(v, f):
     return v
 
 
+_APP_SUBCLASSES = {}
+
+
+def _app_subclass(base):
+    """an application's own record type: a subclass of the library's record with a constructor (and extra state) of its own - still that record for every reader"""
+    if base not in _APP_SUBCLASSES:
+        class AppRecord(base):
+            def __init__(self, payload, session="s-1"):
+                base.__init__(self, **payload)
+                self.session = session
+        AppRecord.__name__ = AppRecord.__qualname__ = "App" + base.__name__
+        _APP_SUBCLASSES[base] = AppRecord
+    return _APP_SUBCLASSES[base]
+
+
 def equivalent_auth_calls(pol, a):
     """-> [(name, thunk)]: the same authentication call with its arguments in other shapes that denote the same values"""
     import webauthn, decimal, fractions
@@ -590,6 +605,8 @@ def equivalent_auth_calls(pol, a):
         out.append(("record with bytearrays", lambda: call(rec(bytearray), expected_challenge=bytearray(pol.challenge), credential_public_key=bytearray(pol.pubkey))))
         out.append(("record whose type is the plain string", lambda: call(rec(bytes, typ="public-key"))))
         out.append(("record with buffers of multi-byte items", lambda: call(rec(_wide_items))))
+        out.append(("record of an application subclass with a constructor of its own", lambda: call(_app_subclass(AuthenticationCredential)(dict(id=a.id_text, raw_id=a.cred_id, response=_app_subclass(AuthenticatorAssertionResponse)(
+            dict(client_data_json=a.cdj, authenticator_data=a.ad, signature=a.sig, user_handle=a.user_handle)))))))
     d = lambda: a.as_dict()
     out.append(("credential in a dict subclass with lookup rules of its own", lambda: call(_FoldingDict(a.as_dict()))))
     if pol.require_uv is False:
@@ -625,6 +642,8 @@ def equivalent_reg_calls(pol, reg):
         out.append(("record with bytearrays", lambda: call(rec(bytearray), expected_challenge=bytearray(pol.challenge))))
         out.append(("record whose type is the plain string", lambda: call(rec(bytes, typ="public-key"))))
         out.append(("record with buffers of multi-byte items", lambda: call(rec(_wide_items))))
+        out.append(("record of an application subclass with a constructor of its own", lambda: call(_app_subclass(RegistrationCredential)(dict(id=reg.id_text, raw_id=reg.cred_id, response=_app_subclass(AuthenticatorAttestationResponse)(
+            dict(client_data_json=reg.cdj, attestation_object=reg.att_obj)))))))
     d = lambda: reg.as_dict()
     out.append(("credential in a dict subclass with lookup rules of its own", lambda: call(_FoldingDict(reg.as_dict()))))
     if pol.require_uv is False or pol.require_up is False:
